@@ -8,7 +8,8 @@ passes (229 tests), (3) with the change the demonstration fails.
 import json, os, re, shutil, subprocess, sys
 pid, n = sys.argv[1], sys.argv[2]
 root = os.path.dirname(os.path.dirname(os.path.abspath(__file__)))
-src = f"/tmp/mut-out/{pid}" if os.path.exists(f"/tmp/mut-out/{pid}") else f"/tmp/mut-{pid}/out"
+src = sys.argv[3] if len(sys.argv) > 3 else (f"/tmp/mut-out/{pid}" if os.path.exists(f"/tmp/mut-out/{pid}") else f"/tmp/mut-{pid}/out")
+dest_n = sys.argv[4] if len(sys.argv) > 4 else n
 wt = "/tmp/mutverify"
 env = dict(os.environ, CARGO_TARGET_DIR="/tmp/mutverify-target", CARGO_NET_OFFLINE="true", TZ="UTC")
 def sh(cmd, cwd=wt):
@@ -36,14 +37,14 @@ print(f"{pid} mut{n}: demo passes on clean tree: {clean_pass}; suite with change
 if not (clean_pass and suite_ok and demo_fails):
     print(out1[-800:] if not clean_pass else "", out2[-800:] if not suite_ok else "", out3[-800:] if not demo_fails else "")
     sys.exit(1)
-dst = os.path.join(root, "seeded", f"{pid}-mut{n}")
+dst = os.path.join(root, "seeded", f"{pid}-mut{dest_n}")
 os.makedirs(dst, exist_ok=True)
 shutil.copy(f"{src}/mut{n}.diff", os.path.join(dst, "patch.diff"))
 shutil.copy(f"{src}/{demo}.rs", os.path.join(dst, "demo.rs"))
 readme = open(f"{src}/README.md").read()
 open(os.path.join(dst, "agent_README.md"), "w").write(readme)
 head = subprocess.run(["git", "-C", "/repo", "rev-parse", "--short", "HEAD"], capture_output=True, text=True).stdout.strip()
-json.dump({"property": pid, "mutation": int(n), "repo_head_when_confirmed": head,
+json.dump({"property": pid, "mutation": int(dest_n), "repo_head_when_confirmed": head,
            "needs_to_manifest": "see agent_README.md",
            "confirmed": {"demo_passes_on_unchanged_tree": clean_pass, "suite_with_change": m.group(0), "demo_fails_with_change": demo_fails,
                          "commands": [f"cargo test --offline --test {demo}  (clean: pass)", "git apply patch.diff", "cargo test --offline --lib  (229 passed)", f"cargo test --offline --test {demo}  (FAILED)"]},
